@@ -344,7 +344,11 @@ Definition enc_meta_v2 (e : entry) : list Z :=
   let m := e_meta e in
   [201; m_id m; kuksa_data_type (m_dtype m); kuksa_entry_type (m_etype m)]
   ++ enc_opt_val (restrict is_scalar (m_min m)) ++ enc_opt_val (restrict is_scalar (m_max m))
-  ++ enc_opt_val (restrict is_array (m_allowed m)).
+  ++ enc_opt_val (restrict is_array (m_allowed m))
+  (* description and unit are not modelled as texts: the harness registers every signal with a description of
+     its own and (every second one) a unit, compares what the API reports with what it registered, and prints
+     1 for "as registered"; the model's claim is that they always are *)
+  ++ [1; 1].
 
 (* sdv has no bool-array allowed list *)
 Definition sdv_allowed_ok (v : value) : bool :=
@@ -354,7 +358,8 @@ Definition enc_meta_sdv (e : entry) : list Z :=
   [202; m_id m; sdv_data_type (m_dtype m); sdv_entry_type (m_etype m); 2 (* CONTINUOUS *)]
   ++ enc_str (m_path m)
   ++ enc_opt_val (restrict is_scalar (m_min m)) ++ enc_opt_val (restrict is_scalar (m_max m))
-  ++ enc_opt_val (restrict sdv_allowed_ok (m_allowed m)).
+  ++ enc_opt_val (restrict sdv_allowed_ok (m_allowed m))
+  ++ [1].                                            (* description as registered (sdv metadata has no unit) *)
 
 (* v1 ValueRestriction: by data type family; min/max/allowed widened to 64 bit; absent when empty *)
 Definition family (t : data_type) : Z :=
@@ -424,7 +429,7 @@ Definition enc_entry_v1 (x : entry * bool * bool * bool * bool) : list Z :=
   ++ (if hv && readable then enc_v1_dp (e_dp e) else [0])
   ++ (if ht && readable then match e_target e with Some d => enc_v1_dp d | None => [0] end else [0])
   ++ (if hm then [1; kuksa_data_type (m_dtype (e_meta e)); kuksa_entry_type (m_etype (e_meta e))]
-              ++ enc_restriction_v1 (e_meta e)
+              ++ enc_restriction_v1 (e_meta e) ++ [1; 1]
       else [0]).
 
 (* Get with single metadata fields named (mask bits: 4 Metadata = all, 8 data type, 16 entry type, 32 value
@@ -444,6 +449,7 @@ Definition enc_entry_v1_parts (view mask : Z) (x : entry * bool * bool * bool * 
       then [1; (if pd then kuksa_data_type (m_dtype (e_meta e)) else 0);
                (if pe then kuksa_entry_type (m_etype (e_meta e)) else 0)]
            ++ (if pr then enc_restriction_v1 (e_meta e) else [0])
+           ++ [1; 1]   (* description / unit: as registered when named (all metadata, or the unit + description fields), absent otherwise *)
       else [0]).
 
 Fixpoint insert_by {A} (key : A -> Z) (x : A) (l : list A) : list A :=
